@@ -133,4 +133,33 @@ theorem slice_ofNat {α : Type} (l : List α) (a b : Nat) (h : a ≤ b) (hb : b 
   have : ((b : Int) - (a : Int)).toNat = b - a := by omega
   simp [this]
 
+theorem slice_from {α : Type} (l : List α) (i : Nat) :
+    slice l (min (i : Int) (len l)) (len l) = some (l.drop i) := by
+  unfold slice len
+  have h1 : (0 : Int) ≤ min (i : Int) (l.length : Int) ∧ min (i : Int) (l.length : Int) ≤ (l.length : Int)
+      ∧ (l.length : Int) ≤ (l.length : Int) := by omega
+  rw [if_pos h1]
+  congr 1
+  by_cases h : i ≤ l.length
+  · have e1 : (min (i : Int) (l.length : Int)).toNat = i := by omega
+    have e2 : ((l.length : Int) - min (i : Int) (l.length : Int)).toNat = l.length - i := by omega
+    rw [e1, e2]
+    exact List.take_of_length_le (by simp)
+  · have e1 : (min (i : Int) (l.length : Int)).toNat = l.length := by omega
+    rw [e1, List.drop_of_length_le (Nat.le_refl _), List.drop_of_length_le (by omega)]
+    simp
+
+theorem slice_upto3 {α : Type} (l : List α) :
+    slice l 0 (Int.tdiv (len l) 3 * 3) = some (l.take (l.length / 3 * 3)) := by
+  unfold slice len
+  have e : (l.length : Int).tdiv 3 = ((l.length / 3 : Nat) : Int) := by
+    rw [Int.natCast_tdiv_eq_ediv]; omega
+  rw [e]
+  have h1 : (0 : Int) ≤ 0 ∧ (0 : Int) ≤ ((l.length / 3 : Nat) : Int) * 3
+      ∧ ((l.length / 3 : Nat) : Int) * 3 ≤ (l.length : Int) := by omega
+  rw [if_pos h1]
+  have e2 : (((l.length / 3 : Nat) : Int) * 3 - 0).toNat = l.length / 3 * 3 := by omega
+  rw [e2]
+  rfl
+
 end Bio.GoRt
